@@ -26,6 +26,48 @@ fn log_take() -> Vec<LogEntry> {
     LOG.with(|l| std::mem::take(&mut *l.borrow_mut()))
 }
 
+/// The generator handed to the sets: Xoroshiro128** whose *fallible* byte draw (`try_fill_bytes`) reports an error on every
+/// third request when the seed is odd (a generator that can run dry is a legal `RngCore`). Every member must see exactly this
+/// generator - a set that hands its members a wrapper shows up in what the fallible draw returns.
+#[derive(Clone)]
+pub struct TestRng {
+    inner: Xoroshiro128StarStar,
+    flaky: bool,
+    tries: u32,
+}
+impl TestRng {
+    pub fn new(seed: u64) -> Self {
+        TestRng { inner: Xoroshiro128StarStar::seed_from_u64(seed), flaky: seed & 1 == 1, tries: 0 }
+    }
+}
+impl RngCore for TestRng {
+    fn next_u32(&mut self) -> u32 {
+        self.inner.next_u32()
+    }
+    fn next_u64(&mut self) -> u64 {
+        self.inner.next_u64()
+    }
+    fn fill_bytes(&mut self, dest: &mut [u8]) {
+        self.inner.fill_bytes(dest)
+    }
+    fn try_fill_bytes(&mut self, dest: &mut [u8]) -> Result<(), rand::Error> {
+        self.tries += 1;
+        if self.flaky && self.tries % 3 == 0 {
+            return Err(rand::Error::new("generator ran dry"));
+        }
+        self.inner.fill_bytes(dest);
+        Ok(())
+    }
+}
+/// what a member sees of one fallible 4-byte draw, folded into one word for the log
+fn fallible_draw<R: RngCore>(rng: &mut R) -> u64 {
+    let mut buf = [0xA5u8; 4];
+    match rng.try_fill_bytes(&mut buf) {
+        Ok(()) => u32::from_le_bytes(buf) as u64,
+        Err(_) => 1 << 40,
+    }
+}
+
 pub struct Probe {
     tag: u32,
 }
@@ -59,6 +101,7 @@ impl Agent for Probe2 {
         let a = rng.next_u64();
         let b = rng.next_u64();
         let _ = rng.next_u32();
+        let b = b ^ fallible_draw(rng).rotate_left(17);
         log_push((1000 + self.tag, env as *const Env as usize, n, a, b));
         env.place_order(Side::Ask, self.tag + self.calls, self.tag, Some(5000 + self.tag)).unwrap();
     }
@@ -171,6 +214,7 @@ impl MarketAgent for MProbe2 {
         let x = rng.next_u64();
         let y = rng.next_u64();
         let _ = rng.next_u32();
+        let y = y ^ fallible_draw(rng).rotate_left(17);
         log_push((1000 + self.tag, env as *const MarketEnv<M, N> as usize, n, x, y));
         env.place_order(a, Side::Ask, self.tag + self.calls, self.tag, Some(5000 + self.tag)).unwrap();
     }
@@ -266,10 +310,10 @@ fn compare_logs(derived: &[LogEntry], hand: &[LogEntry], env_d: usize, env_h: us
     Ok(())
 }
 
-pub fn run_env_pair<S>(seed: u64, rounds: usize, mut a: S, mut b: S, derived: fn(&mut S, &mut Env, &mut Xoroshiro128StarStar), hand: fn(&mut S, &mut Env, &mut Xoroshiro128StarStar)) -> Result<PairStats, String> {
+pub fn run_env_pair<S>(seed: u64, rounds: usize, mut a: S, mut b: S, derived: fn(&mut S, &mut Env, &mut TestRng), hand: fn(&mut S, &mut Env, &mut TestRng)) -> Result<PairStats, String> {
     let mut e1: Env = Env::new(0, 1, 1000, true);
     let mut e2: Env = Env::new(0, 1, 1000, true);
-    let mut r1 = Xoroshiro128StarStar::seed_from_u64(seed);
+    let mut r1 = TestRng::new(seed);
     let mut r2 = r1.clone();
     let mut st = PairStats::default();
     for (e, r) in [(&mut e1, &mut r1), (&mut e2, &mut r2)] {
@@ -311,12 +355,12 @@ pub fn run_market_pair<S>(
     rounds: usize,
     mut a: S,
     mut b: S,
-    derived: fn(&mut S, &mut MarketEnv<2, 10>, &mut Xoroshiro128StarStar),
-    hand: fn(&mut S, &mut MarketEnv<2, 10>, &mut Xoroshiro128StarStar),
+    derived: fn(&mut S, &mut MarketEnv<2, 10>, &mut TestRng),
+    hand: fn(&mut S, &mut MarketEnv<2, 10>, &mut TestRng),
 ) -> Result<PairStats, String> {
     let mut e1: MarketEnv<2, 10> = MarketEnv::new(0, [1, 1], 1000, true);
     let mut e2: MarketEnv<2, 10> = MarketEnv::new(0, [1, 1], 1000, true);
-    let mut r1 = Xoroshiro128StarStar::seed_from_u64(seed);
+    let mut r1 = TestRng::new(seed);
     let mut r2 = r1.clone();
     let mut st = PairStats::default();
     for (e, r) in [(&mut e1, &mut r1), (&mut e2, &mut r2)] {
